@@ -1,0 +1,34 @@
+//go:build verif
+// +build verif
+
+package federation
+
+import (
+	"fmt"
+
+	"github.com/samsarahq/thunder/graphql"
+)
+
+// VerifPlan returns the normalized form of query and the plan the executor's
+// current planner builds for it (build tag verif).
+func VerifPlan(e *Executor, query *graphql.Query) (*graphql.SelectionSet, *Plan, error) {
+	planner := e.getPlanner()
+	var schema graphql.Type
+	switch query.Kind {
+	case queryString:
+		schema = planner.schema.Schema.Query
+	case mutationString:
+		schema = planner.schema.Schema.Mutation
+	default:
+		return nil, nil, fmt.Errorf("unknown query kind %s", query.Kind)
+	}
+	flattened, err := planner.flattener.flatten(query.SelectionSet, schema)
+	if err != nil {
+		return nil, nil, err
+	}
+	plan, err := planner.planRoot(query)
+	if err != nil {
+		return nil, nil, err
+	}
+	return flattened, plan, nil
+}
